@@ -33,8 +33,10 @@
 (*       see EffReq)                                       (AllocOutcomeOK)*)
 (* WHICH devices are chosen is left open (nondeterministic): scoring,      *)
 (* preferred minors, GPU topology scopes only select among allowed sets.   *)
-(* Not modelled: GPU partition tables, VF bookkeeping, reservations /      *)
-(* preemption (restore states), joint allocation.                          *)
+(* Not modelled: GPU partition tables, VF bookkeeping, reservations        *)
+(* (restore states), joint allocation.  The steps of ONE scheduling cycle  *)
+(* (PreFilter, preemption what-if, Filter, Reserve) on SEVERAL nodes: see  *)
+(* CycleRead / Reserve / Elsewhere below.                                  *)
 (***************************************************************************)
 EXTENDS Integers, FiniteSets, Sequences, FiniteSetsExt, TLC
 
